@@ -11,9 +11,9 @@ NA = {
 }
 TECH = {
  "C01": "abstract interpretation (affine forms + Fourier-Motzkin path facts) of the propagation loop, search loop and wake-up table; dependency analysis of propagators vs triggers; who-may-write analysis",
- "C02": "typestate over generator paths; partition algebra on abstract post-states of value heuristics",
+ "C02": "typestate over generator paths; partition algebra on abstract post-states of value heuristics; engine soundness and shaving rules shared with C01/C10 (scope table)",
  "C03": "must-precede / must-follow on abstract paths of the optimisation loops; affine equality of tightening stores",
- "C04": "progress-measure rules on abstract paths; loop-variant derivation (guard measure, monotone pointer, counter sum) with Houdini invariants",
+ "C04": "progress-measure rules on abstract paths; loop-variant derivation (guard measure, monotone pointer, counter sum) with Houdini invariants; structural precondition of the Hall-interval filtering",
  "C07": "who-may-write + path-condition analysis of enabled-flag stores; return-vocabulary check over the call graph",
  "C08": "bound-dependency (taint) analysis of filtering functions against per-position trigger masks; event-mask exactness on abstract paths",
  "C09": "abstract interpretation of value heuristics from a symbolic pre-state; interval-chain oracle; bitmask inclusion",
@@ -22,10 +22,10 @@ TECH = {
  "C12": "abstract interpretation of Problem.split; affine adjacency and clamp entailment",
  "C13": "abstract interpretation of Problem.init (Python level) against the per-constraint cache oracle; offset round-trip equalities",
  "C15": "resolved call-graph role propagation (argument/parameter agreement), dispatch-table tracing, module-level state and mutable-default lint",
- "C16": "index-within-extent entailment from path facts for a frozen must-prove table; capacity-guard entailment; allocation-shape agreement",
+ "C16": "index-within-extent entailment from path facts for every shape index (table-free classification); assume/guarantee extent analysis of the Hall-interval helpers with inductive invariants; capacity-guard entailment; allocation-shape agreement",
  "C17": "counter <-> event-site correspondence on abstract paths (exactly-once on event paths, never elsewhere); label/index table agreement",
  "C18": "structural necessary conditions (handle retention, bounded queue read, liveness-dependent exit) on abstract paths",
- "C19": "capacity-guard entailment on abstract paths (dtype range of the level pointer, push extent)",
+ "C19": "capacity-guard entailment on abstract paths (dtype range of the level pointer, push extent); lint of wrapping conversions to narrow index types",
 }
 checks = []
 for pid in CLAIMED:
@@ -56,7 +56,7 @@ man = {
               "kind_free_text": "pure-stdlib ast-based static analyser: program model (imports, folded constants, registries, role propagation, mod summaries), "
                                 "path-sensitive abstract interpreter over affine forms with store-log memory, Fourier-Motzkin entailment, Houdini loop invariants, rule tables"}],
  "checks": checks,
- "notes": "Technique family: static analysis only (nothing under /repo is imported or executed by a check). 13 genuine defects found by the checks were repaired by fix: commits in /repo "
+ "notes": "Technique family: static analysis only (nothing under /repo is imported or executed by a check). 13 genuine defects found by the checks were repaired by fix: commits in /repo (12 in the first build round, the gcc zero-capacity hang in the second) "
           "(listed in known_findings.json under 'fixed'). Exit codes: 0 ok, 1 VIOLATION, 2 ANALYSIS-ERROR.",
  "not_applicable": [{"property_id": k, "reason": v} for k, v in NA.items()],
 }
